@@ -371,6 +371,34 @@ def parser_grid_search(log):
     return {'witness': None, 'grid_points': len(cases)}
 
 
+def call_grid_search(log):
+    """9 signatures x 16 call shapes (positional, named, *seq, **map): the values the parameters receive, or failure,
+    compared with CPython's call rules."""
+    sigs = [('a', '(a,)'), ('a, b', '(a, b)'), ('a, b=5', '(a, b)'), ('a, *args', '(a, list(args))'),
+            ('a, **kw', '(a, sorted([ord(k) for k in kw]), sorted(kw.values()))'), ('a, *, k', '(a, k)'),
+            ('a, *args, k=1, **kw', '(a, list(args), k, sorted([ord(x) for x in kw]))'), ('*args', '(list(args),)'),
+            ('**kw', '(sorted([ord(k) for k in kw]),)'), ('a=1, b=2', '(a, b)')]
+    calls = ['', '1', '1, 2', '1, 2, 3', 'a=1', '1, b=2', '1, k=3', '*[1, 2]', '1, *[2]', '**{"a": 1}', '1, **{"b": 2}', '1, **{}',
+             '1, 2, **{"k": 3}', '1, a=1', 'b=2, a=1', '1, **{"a": 2}']
+    exprs, wants = [], []
+    for sig, body in sigs:
+        for c in calls:
+            env = {}
+            try:
+                exec('def f(%s): return %s' % (sig, body), env)
+                w = 'OK ' + repr(eval('f(%s)' % c, env))
+            except Exception:
+                w = 'ERR'
+            wants.append(w)
+            exprs.append('(lambda %s: %s)(%s)' % (sig, body, c))
+    outs = eval_many(exprs, log)
+    for e, o, w in zip(exprs, outs, wants):
+        good = o.startswith('ERR') if w == 'ERR' else o == w
+        if not good:
+            return {'witness': {'expression': e, 'real_library': o, 'oracle_python': w}, 'grid_points': len(exprs)}
+    return {'witness': None, 'grid_points': len(exprs)}
+
+
 def compr_grid_search(log):
     """comprehensions with several `if` guards per `for` clause: guards run left to right (a later guard may rely on an
     earlier one), on the first and on nested `for` clauses, list and dict forms."""
@@ -516,6 +544,10 @@ def find_witness(prop, v, repo, log):
             r = grid_search_int(op, log)
             r['search'] = 'boundary grid for `%s` on the real library vs Python integers' % op
             return r
+    if prop == 'C08' and ('C08.bind' in oid or 'collect_inline_impl' in fn):
+        r = call_grid_search(log)
+        r['search'] = '10 signatures x 16 call shapes (positional, named, *seq, **map) on the real library vs CPython call rules'
+        return r
     if 'C01.compr.' in oid or 'compile_ifs' in fn:
         r = compr_grid_search(log)
         r['search'] = 'comprehensions with several guards per for clause (first and nested clauses, list and dict) on the real library vs Python'
